@@ -479,8 +479,9 @@ def drive(pid, tier, replay=None):
         "wall_s": round(time.time() - t0, 2),
         "violations": len(unknown),
     }
-    os.makedirs(os.path.join(VERIF_DIR, "evidence"), exist_ok=True)
-    evpath = os.path.join(VERIF_DIR, "evidence", "%s.json" % pid)
+    evdir = os.environ.get("VERIF_EVIDENCE_DIR") or os.path.join(VERIF_DIR, "evidence")
+    os.makedirs(evdir, exist_ok=True)
+    evpath = os.path.join(evdir, "%s.json" % pid)
     with open(evpath, "w") as f:
         json.dump(ev, f, indent=1, sort_keys=True)
 
@@ -494,7 +495,8 @@ def drive(pid, tier, replay=None):
                                        len(shards), time.time() - t0,
                                        len(viol_counts), len(unknown)))
     if unknown:
-        rdir = os.path.join(VERIF_DIR, "replays", pid)
+        rdir = os.path.join(os.environ.get("VERIF_REPLAY_DIR") or
+                            os.path.join(VERIF_DIR, "replays"), pid)
         os.makedirs(rdir, exist_ok=True)
         seen = set()
         unknown.sort(key=lambda v: len(json.dumps(v["witness"])))
